@@ -1,7 +1,9 @@
 (* Properties_C17.v — C17 (the parent structure): every mutation the walk protocol performs respects the potential
    (rank, item); therefore the potential increases along every parent edge of every reachable structure, the structure
-   is acyclic and lookups terminate.  Connectivity = union graph and merge callbacks = spanning forest are compared
-   with a sequential union-find on every generated run (DESIGN §5 C17: partial). *)
+   is acyclic and lookups terminate; along every delivery order of the protocol's visits no guard fails (DisjointProto) and,
+   once no visit is pending, two items have the same root iff they are connected by the unions issued (DisjointConn).
+   That every delivery order reaches quiescence (termination of the walks) and that the merge callbacks form a spanning
+   forest are compared with a sequential union-find on every generated run (DESIGN §5 C17). *)
 From Coq Require Import ZArith List Bool Lia.
 Import ListNotations.
 From Ygm Require Import DisjointSet.
@@ -57,3 +59,62 @@ Theorem C17_run_pool_never_fails_a_guard : forall fuel pick t pool, GI (t, pool)
   match run_pool fuel pick t pool with Some (t', _) => Inv t' | None => True end.
 Proof. exact run_pool_never_fails_a_guard. Qed.
 Print Assumptions C17_run_pool_never_fails_a_guard.
+
+
+(* FUNCTIONAL CORRECTNESS AT QUIESCENCE.  [root t x r]: following parents from x ends at the root r (an item that was
+   never visited is its own root); under the invariant every item has exactly one root.  Along EVERY delivery order:
+   at any moment items with the same root are connected in the union graph (soundness), and once the pool of pending
+   visits is empty, items connected in the union graph have the same root (completeness).  R es = reflexive-symmetric-
+   transitive closure of the unions issued. *)
+From Ygm Require Import DisjointConn.
+Theorem C17_every_item_has_one_root : forall t, Inv t ->
+  (forall x, exists r, root t x r) /\ (forall x r1 r2, root t x r1 -> root t x r2 -> r1 = r2).
+Proof. intros t HI. split; [apply (root_total t HI)|intros x r1 r2 H1 H2; apply (root_det t x r1 H1 r2 H2)]. Qed.
+Print Assumptions C17_every_item_has_one_root.
+
+Theorem C17_quiescent_roots_are_components : forall es t,
+  steps ([], unions es) (t, []) -> forall a b, conn t a b <-> R es a b.
+Proof. exact quiescent_roots_are_components. Qed.
+Print Assumptions C17_quiescent_roots_are_components.
+
+Theorem C17_same_root_implies_connected_always : forall es s a b,
+  steps ([], unions es) s -> conn (fst s) a b -> R es a b.
+Proof. exact always_sound. Qed.
+Print Assumptions C17_same_root_implies_connected_always.
+
+(* same-root only grows with every delivery (sets are never split), and a consumed walk keeps its two sides connected
+   through same-root + pending walks *)
+Theorem C17_delivery_never_splits_a_set : forall t v t' sends, Inv t -> VI t v -> CI t v -> exec t v = Some (t', sends) ->
+  Inv t' /\ (forall a b, conn t a b -> conn t' a b) /\ Forall (CI t') sends /\
+  (forall me c op oi r, v = Walk me c op oi r -> Q t' sends me op).
+Proof. exact exec_conn. Qed.
+Print Assumptions C17_delivery_never_splits_a_set.
+
+Theorem C17_find_computes_root : forall t fuel x r, find fuel t x = Some r -> root t x r.
+Proof. exact find_root. Qed.
+Print Assumptions C17_find_computes_root.
+
+(* non-vacuity: the four delivery orders of DisjointSet.protocol_runs_ok reach quiescence on the 28 test unions (a chain,
+   a clique, duplicates, self-loops), so the theorem applies to them: 1 ~ 13 ~ 24 ~ 20, and 30 is not with 1 *)
+Example C17_quiescence_theorem_not_vacuous :
+  exists t, steps ([], unions test_edges) (t, []) /\ conn t 1 20 /\ ~ conn t 30 1.
+Proof.
+  destruct (run_pool 4000 (fun _ _ => O) [] (unions test_edges)) as [(t, f)|] eqn:E; [|vm_compute in E; discriminate].
+  pose proof (run_pool_steps _ _ _ _ _ _ E) as H. exists t. split; [exact H|].
+  assert (Step : forall a b, In (a, b) test_edges -> R test_edges a b) by (intros a b Hin; apply Relation_Operators.rst_step, Hin).
+  split.
+  - apply (quiescent_roots_are_components _ _ H).
+    (* 1 - 2 - ... - 9 - 24 - 20 *)
+    assert (P : forall l x z, (fix path (l : list Z) (x : Z) : Prop := match l with [] => x = z | y :: l' => (In (x, y) test_edges \/ In (y, x) test_edges) /\ path l' y end) l x ->
+                            R test_edges x z).
+    { induction l as [|y l IH]; intros x z Hp; [subst; apply Relation_Operators.rst_refl|]. destruct Hp as (Hxy & Hrest).
+      apply (Relation_Operators.rst_trans _ _ _ y); [destruct Hxy as [Hxy|Hxy]; [apply Step, Hxy|apply Relation_Operators.rst_sym, Step, Hxy]|].
+      apply IH, Hrest. }
+    apply (P [2; 3; 4; 5; 6; 7; 8; 9; 24; 20] 1 20). cbn. intuition.
+  - intros Hc. apply (quiescent_roots_are_components _ _ H) in Hc.
+    (* every edge keeps "is 30" invariant, so nothing but 30 is related to 30 *)
+    assert (Inv30 : forall a b, R test_edges a b -> (a = 30 <-> b = 30)).
+    { intros a b Hr. induction Hr as [u v Hin|u|u v _ IH|u v w _ IH1 _ IH2]; [|tauto|tauto|tauto].
+      cbn in Hin. repeat (destruct Hin as [Hin|Hin]; [injection Hin as <- <-; lia|]). contradiction. }
+    destruct (Inv30 _ _ Hc) as (A & _). specialize (A eq_refl). discriminate.
+Qed.
